@@ -78,7 +78,8 @@ func honestBlock(info []byte, i int) []byte {
 	return info[off:min(off+blk, len(info))]
 }
 
-func run(sp infoSpec, npeers int, votes []uint32, steps []step) (fail string, labels map[string]bool, hist []string) {
+func run(sp infoSpec, npeers int, votes []uint32, steps []step, opt ...bool) (fail string, labels map[string]bool, hist []string) {
+	viaCongested := len(opt) > 0 && opt[0]
 	labels = map[string]bool{}
 	info := buildInfo(sp)
 	size := uint32(len(info))
@@ -171,6 +172,25 @@ func run(sp infoSpec, npeers int, votes []uint32, steps []step) (fail string, la
 			if p := w.Drain(); p != "" {
 				return p + describe(), labels, hist
 			}
+		case "congest":
+			// the remote stops reading and pipelines metadata requests: our
+			// replies pile up until the connection counts as congested
+			if len(live) == 0 {
+				continue
+			}
+			pp := live[s.P%len(live)]
+			pp.StopReading()
+			for k := 0; k < 40 && !pp.Congested(); k++ {
+				if _, pv := pp.Msg(protocol.ExtendedMetadata{Subtype: protocol.ExtMetadata, Type: 0, Piece: uint32(k % max(count, 1))}); pv != "" {
+					return pv + describe(), labels, hist
+				}
+			}
+			if p := w.Drain(); p != "" {
+				return p + describe(), labels, hist
+			}
+			if pp.Congested() {
+				labels["congested-connection"] = true
+			}
 		case "block":
 			if len(live) == 0 {
 				continue
@@ -248,6 +268,15 @@ func run(sp infoSpec, npeers int, votes []uint32, steps []step) (fail string, la
 		honest = append(honest, pp)
 		nvotes++
 		trueVotes++
+	}
+	// the honest blocks may as well arrive over a connection whose outgoing
+	// queue is congested: incoming data has nothing to do with that
+	for _, pp := range w.Peers {
+		if pp.Alive && pp.Congested() && viaCongested {
+			honest = []*pump.PP{pp}
+			labels["honest-blocks-over-congested-connection"] = true
+			break
+		}
 	}
 	for round := 1; round <= 3 && !t.InfoComplete(); round++ {
 		hist = append(hist, fmt.Sprintf("honest-round-%d", round))
@@ -359,14 +388,18 @@ func TestC12Metadata(t *testing.T) {
 					Size:    rapid.SampledFrom([]uint32{size, size, size, size, size + 1, uint32(count * blk), 0}).Draw(rt, "claimed"),
 					Payload: rapid.SampledFrom([]string{"honest", "honest", "honest", "flip", "shift", "other-index", "empty", "one", "short", "full", "plus1", "minus1"}).Draw(rt, "payload")})
 			case k == 7:
-				steps = append(steps, step{Kind: "tick"})
+				if rapid.IntRange(0, 2).Draw(rt, "congest?") == 0 {
+					steps = append(steps, step{Kind: "congest", P: rapid.IntRange(0, 9).Draw(rt, "p")})
+				} else {
+					steps = append(steps, step{Kind: "tick"})
+				}
 			case k == 8:
 				steps = append(steps, step{Kind: "newpeer", Size: rapid.SampledFrom(sizes).Draw(rt, "vote")})
 			default:
 				steps = append(steps, step{Kind: "disconnect", P: rapid.IntRange(0, 9).Draw(rt, "p")})
 			}
 		}
-		fail, labels, _ := run(sp, npeers, votes, steps)
+		fail, labels, _ := run(sp, npeers, votes, steps, rapid.Bool().Draw(rt, "viaCongested"))
 		if fail != "" {
 			rt.Fatalf("%s", fail)
 		}
